@@ -432,6 +432,16 @@ func (g *c19Gen) chain() []c19Mw {
 		}
 		res = append(res, g.mw(k))
 	}
+	if r.Intn(10) == 0 { // nested Timeouts, the longer one outside: the shorter deadline must be the visible one
+		in := g.mw("timeout")
+		out := g.mw("timeout")
+		out.D = in.D + int64(1+r.Intn(3))*hourNs
+		mid := g.mw(c19Kinds[r.Intn(len(c19Kinds)-1)])
+		if r.Intn(2) == 0 {
+			return []c19Mw{out, in}
+		}
+		return []c19Mw{out, mid, in}
+	}
 	if r.Intn(6) == 0 && !hasRetry { // the compositions the property names: Retry around the chain
 		res = append([]c19Mw{g.mw("retry")}, res...)
 		if len(res) > 3 {
